@@ -4,6 +4,7 @@
 //!   mtv drive  <layer> <n> <len> <out.ndjson>   impl -> spec: record random executions
 mod common;
 mod overlay;
+mod prefixed;
 
 fn main() {
     let args: Vec<String> = std::env::args().collect();
@@ -11,7 +12,13 @@ fn main() {
     std::panic::set_hook(Box::new(|_| {}));
     match (a(1), a(2)) {
         ("replay", "overlay") => overlay::replay(a(3)),
+        ("replay", "prefixed") => prefixed::replay(a(3)),
         ("drive", "overlay") => overlay::drive(
+            a(3).parse().unwrap_or(10),
+            a(4).parse().unwrap_or(50),
+            a(5),
+        ),
+        ("drive", "prefixed") => prefixed::drive(
             a(3).parse().unwrap_or(10),
             a(4).parse().unwrap_or(50),
             a(5),
